@@ -48,7 +48,7 @@ m = {
         "name": "gosmt",
         "path": "/verif/engine",
         "serves_properties": sorted(CLAIMED),
-        "kind_free_text": "symbolic executor for Go written for this task: loads /repo (+ harness overlay) with go/packages, builds go/ssa, interprets the SSA of the real functions with SMT terms (bit-vectors, FloatingPoint, arrays), forks on feasible branches, discharges every assertion and Go run-time check with z3 4.8.12 / cvc5 1.0 (portfolio), and replays each counterexample concretely (SSA re-execution + native go test)",
+        "kind_free_text": "symbolic executor for Go written for this task: loads /repo (+ harness overlay) with go/packages, builds go/ssa, interprets the SSA of the real functions with SMT terms (bit-vectors, FloatingPoint, arrays), forks on feasible branches, discharges every assertion and Go run-time check with z3 4.8.12 / cvc5 1.0 (portfolio), replays each counterexample concretely (SSA re-execution + native go test), and on every run executes a seeded sample of complete symbolic paths natively with go test and compares nondets consumed, assertion sequence and verdict (translation validation of the encoding against the build)",
     }],
     "checks": checks,
     "not_applicable": na,
